@@ -163,11 +163,32 @@ fn gen_multi(src: &mut Src, d: usize, hint: Option<&J>, o: &ExprOpts) -> RefExpr
     }
 }
 
+pub const FN_NAMES: &[&str] = &[
+    "length", "abs", "sort_by", "map", "not_null", "to_string", "max_by", "contains", "join", "merge", "keys", "type", "nope", "f",
+];
+
+/// An untyped call (syntax-level generators only).
+fn gen_call(src: &mut Src, d: usize, hint: Option<&J>, o: &ExprOpts) -> RefExpr {
+    let name = src.pick(FN_NAMES).to_string();
+    let n = src.below(4);
+    let mut args = vec![];
+    for _ in 0..n {
+        let a = gen_expr(src, d + 1, hint, o);
+        if src.chance(70) {
+            args.push(RefExpr::Expref(b(a)));
+        } else {
+            args.push(a);
+        }
+    }
+    RefExpr::Call(name, args)
+}
+
 /// What may follow a dot.
 fn gen_step(src: &mut Src, d: usize, hint: Option<&J>, o: &ExprOpts) -> RefExpr {
-    match src.weighted(&[10, if d < o.max_depth { 3 } else { 0 }]) {
+    match src.weighted(&[10, if d < o.max_depth { 3 } else { 0 }, if o.funcs && d < o.max_depth { 2 } else { 0 }]) {
         0 => RefExpr::Field(pick_key(src, hint, o)),
-        _ => gen_multi(src, d, hint, o),
+        1 => gen_multi(src, d, hint, o),
+        _ => gen_call(src, d, hint, o),
     }
 }
 
@@ -394,7 +415,13 @@ pub fn gen_expr(src: &mut Src, d: usize, hint: Option<&J>, o: &ExprOpts) -> RefE
             RefExpr::Cmp(op, b(l), b(r))
         }
         8 => RefExpr::Not(b(gen_expr(src, d + 1, hint, o))),
-        _ => gen_multi(src, d, hint, o),
+        _ => {
+            if o.funcs && src.chance(90) {
+                gen_call(src, d, hint, o)
+            } else {
+                gen_multi(src, d, hint, o)
+            }
+        }
     }
 }
 
